@@ -325,3 +325,25 @@ M('c17-min-none-stops', 'C17', DBF, "            if circuit is None:\n          
 M('c17-key-unnormalised', 'C17', DBF, "        normalized_truth_table = normalization.truth_table\n        label = _truth_table_to_label(normalized_truth_table)\n        circuit = self.get_by_label(label)", "        normalized_truth_table = normalization.truth_table\n        label = _truth_table_to_label(truth_table)\n        circuit = self.get_by_label(label)", 'C17.KEY')
 M('c17-key-join', 'C17', DBF, "    return '_'.join(str_truth_tables)", "    return ''.join(str_truth_tables)", 'C17.KEY')
 M('c17-twin-rename', 'C17', NRM, "        for i, mapped_index in enumerate(self.mapping):\n            original_outputs[i] = circuit.outputs[mapped_index]", "        for pos, src_idx in enumerate(self.mapping):\n            original_outputs[pos] = circuit.outputs[src_idx]", None)
+
+# ---------------------------------------------------------------- C06
+M('c06-swap-bc', 'C06', SEARCH, "(1 if a else -1) * self._gate_type_variable(gate, b, c),", "(1 if a else -1) * self._gate_type_variable(gate, c, b),", 'C06.ENC')
+M('c06-forbidden-index', 'C06', SEARCH, "* self._gate_type_variable(gate, i // 2, i % 2)", "* self._gate_type_variable(gate, i % 2, i // 2)", 'C06.ENC')
+M('c06-input-shift', 'C06', SEARCH, "if (t >> (self._boolean_function.input_size - 1 - input_gate)) & 1:", "if (t >> input_gate) & 1:", 'C06.ENC')
+M('c06-dc-any', 'C06', SEARCH, "        return all((o == DontCare for o in output_col))", "        return any((o == DontCare for o in output_col))", 'C06.ENC')
+M('c06-output-sign', 'C06', SEARCH, "(1 if self._output_truth_tables[h][t] else -1)", "(-1 if self._output_truth_tables[h][t] else 1)", 'C06.ENC')
+M('c06-normalized-11', 'C06', SEARCH, "self._cnf.append([-self._gate_type_variable(gate, 0, 0)])", "self._cnf.append([-self._gate_type_variable(gate, 1, 1)])", 'C06.ENC')
+M('c06-exactly-one-atmost-missing', 'C06', SEARCH, "        self._cnf.extend([[-a, -b] for (a, b) in itertools.combinations(literals, 2)])", "        pass", 'C06.ENC')
+M('c06-forbidden-basis', 'C06', SEARCH, "list(set(Basis.FULL.value) - set(self._basis_list))", "list(set(Basis.XAIG.value) - set(self._basis_list))", 'C06.ENC')
+M('c06-sign-a', 'C06', SEARCH, "(-1 if a else 1) * self._gate_value_variable(gate, t),", "(1 if a else -1) * self._gate_value_variable(gate, t),", 'C06.ENC')
+M('c06-basis-aig-xor', 'C06', SEARCH, "        Operation.geq_,\n        Operation.leq_,\n    ]\n    XAIG = [", "        Operation.geq_,\n        Operation.leq_,\n        Operation.xor_,\n    ]\n    XAIG = [", 'C06.SEM')
+M('c06-str-basis', 'C06', SEARCH, "    'AIG': Basis.AIG,\n    'XAIG': Basis.XAIG,", "    'AIG': Basis.XAIG,\n    'XAIG': Basis.AIG,", 'C06.SEM')
+M('c06-fix-back', 'C06', SEARCH, "                if first_predecessor is not None\n                else second_predecessor", "                if first_predecessor is not None\n                else first_predecessor", 'C06.FIX')
+M('c06-fix-type-bits', 'C06', SEARCH, "* self._gate_type_variable(gate, int(a), int(b))", "* self._gate_type_variable(gate, int(b), int(a))", 'C06.FIX')
+M('c06-fix-db-flag', 'C06', SEARCH, "        self._need_check_db = False\n\n        if from_gate not in self._gates:", "        if from_gate not in self._gates:", 'C06.FIX')
+M('c06-forbid-wire-minmax', 'C06', SEARCH, "to_gate, min(other, from_gate), max(other, from_gate)", "to_gate, min(other, to_gate - 1), max(other, from_gate)", 'C06.FIX')
+M('c06-forbid-wire-break', 'C06', SEARCH, "            if other == from_gate:\n                continue", "            if other == from_gate:\n                break", 'C06.FIX')
+M('c06-decode-order', 'C06', SEARCH, "                    (str(first_predecessor_str), str(second_predecessor_str)),", "                    (str(second_predecessor_str), str(first_predecessor_str)),", 'C06.DEC')
+M('c06-decode-tt', 'C06', SEARCH, "    (0, 1, 0, 0): LT,\n    (0, 1, 0, 1): RIFF,", "    (0, 1, 0, 0): RIFF,\n    (0, 1, 0, 1): LT,", 'C06')
+M('c06-twin-rename-abc', 'C06', SEARCH, "                for a, b, c in itertools.product(range(2), repeat=3):\n                    for t in range(1 << self._boolean_function.input_size):\n                        if self._is_dont_cares_input(t):\n                            continue\n                        self._cnf.append(\n                            [\n                                -self._predecessors_variable(\n                                    gate, first_pred, second_pred\n                                ),\n                                (-1 if a else 1) * self._gate_value_variable(gate, t),\n                                (-1 if b else 1)\n                                * self._gate_value_variable(first_pred, t),\n                                (-1 if c else 1)\n                                * self._gate_value_variable(second_pred, t),\n                                (1 if a else -1) * self._gate_type_variable(gate, b, c),",
+  "                for va, vb, vc in itertools.product(range(2), repeat=3):\n                    for t in range(1 << self._boolean_function.input_size):\n                        if self._is_dont_cares_input(t):\n                            continue\n                        self._cnf.append(\n                            [\n                                (-1 if vb else 1)\n                                * self._gate_value_variable(first_pred, t),\n                                -self._predecessors_variable(\n                                    gate, first_pred, second_pred\n                                ),\n                                (-1 if va else 1) * self._gate_value_variable(gate, t),\n                                (-1 if vc else 1)\n                                * self._gate_value_variable(second_pred, t),\n                                (1 if va else -1) * self._gate_type_variable(gate, vb, vc),", None)
